@@ -394,19 +394,35 @@ def rule_F5(ctx):
                     if isinstance(p2, ast.Try) and any(par is s for s in p2.finalbody):
                         in_final = True
                     par = p2
-                fors = [f for f in own_nodes(fn) if isinstance(f, ast.For) and "num_x" in norm(f.iter)]
+                fors = [f for f in own_nodes(fn) if (isinstance(f, ast.For) and "num_x" in norm(f.iter)) or (isinstance(f, ast.While) and "num_x" in norm(f.test))]
                 ok = not in_final and bool(fors) and c.lineno > max(f.end_lineno or f.lineno for f in fors)
                 det = "" if ok else "state is saved before/inside the sample loop or only in the cleanup"
             _ob(ctx, "F5", fn, f"{q}: {w} is written back to {prev} after the block", ok, det, f"{q}:{w}:save", IIR, q)
         # per-sample recurrence: reconstructed from the loop body by sequential substitution
         from .sem import straightline_ex, canon_ast
-        loops = [f for f in own_nodes(fn) if isinstance(f, ast.For) and any(isinstance(c, ast.Call) and isinstance(c.func, ast.Name) and c.func.id == "inner_prod_double_cbuffer"
-                                                                                   for c in ast.walk(f))]
+        loops = [f for f in own_nodes(fn) if isinstance(f, (ast.For, ast.While)) and any(isinstance(c, ast.Call) and isinstance(c.func, ast.Name) and c.func.id == "inner_prod_double_cbuffer"
+                                                                                             for c in ast.walk(f))]
         ok, det = len(loops) == 1, "sample loop not found"
         if ok:
             lp = loops[0]
-            iv = lp.target.id if isinstance(lp.target, ast.Name) else "?"
-            sl = straightline_ex(lp.body)
+            body_ = list(lp.body)
+            if isinstance(lp, ast.For):
+                iv = lp.target.id if isinstance(lp.target, ast.Name) else "?"
+                ok = norm(lp.iter) in ("range(num_x)", "range(0, num_x)")
+            else:
+                # counted while: `i` declared 0, `while i < num_x`, `i += 1` as the last statement of the body and nowhere else
+                t_ = lp.test
+                iv = t_.left.id if isinstance(t_, ast.Compare) and len(t_.ops) == 1 and isinstance(t_.ops[0], ast.Lt) and isinstance(t_.left, ast.Name) and norm(t_.comparators[0]) == "num_x" else "?"
+                steps_ = [x for x in ast.walk(lp) if isinstance(x, (ast.AugAssign, ast.Assign)) and norm(x.target if isinstance(x, ast.AugAssign) else x.targets[0]) == iv]
+                inits_ = [x for x in own_nodes(fn) if isinstance(x, (ast.Assign, ast.AnnAssign)) and norm(x.targets[0] if isinstance(x, ast.Assign) else x.target) == iv and x.lineno < lp.lineno]
+                ok = iv != "?" and len(steps_) == 1 and steps_[0] is body_[-1] and isinstance(steps_[0], ast.AugAssign) and isinstance(steps_[0].op, ast.Add) and norm(steps_[0].value) == "1" \
+                    and len(inits_) == 1 and inits_[0].value is not None and norm(inits_[0].value) == "0" \
+                    and not any(isinstance(x, ast.Continue) for x in ast.walk(lp))
+                body_ = body_[:-1]
+            if not ok:
+                det = "the sample loop does not visit i = 0 .. num_x-1 once each"
+        if ok:
+            sl = straightline_ex(body_)
             eff = [(canon_ast(e), i) for e, i in sl["effects"]]
             R = "(inner_prod_double_cbuffer(x_window, B) - inner_prod_double_cbuffer(y_window, A_true)) / k_gain"
             xin = (f"push_double_cbuffer(x_window, x[{iv}])", f"push_double_cbuffer(x_window, __cast_double__ @ x[{iv}])")
@@ -421,7 +437,7 @@ def rule_F5(ctx):
             det = "" if ok else f"loop body effects: {texts}"
             if ok:
                 # the filter sum is taken after the new input entered x_window and before the new output enters y_window
-                first_sum = min(i for i, st in enumerate(lp.body) if any(isinstance(c, ast.Call) and isinstance(c.func, ast.Name) and c.func.id == "inner_prod_double_cbuffer"
+                first_sum = min(i for i, st in enumerate(body_) if any(isinstance(c, ast.Call) and isinstance(c.func, ast.Name) and c.func.id == "inner_prod_double_cbuffer"
                                                                        for c in ast.walk(st)))
                 ok = eff[0][1] < first_sum < eff[1][1]
                 det = "" if ok else "the filter sum is not taken between the two history updates"
